@@ -11,8 +11,9 @@ import subprocess
 import sys
 import time
 
-ROOT = "/verif"
-PY = ROOT + "/.venv/bin/python"
+# ROOT is where this copy of the framework lives (a `vp run` snapshot works from its own directory); the virtualenv is shared
+ROOT = os.environ.get("VF_ROOT") or os.path.dirname(os.path.dirname(os.path.abspath(__file__)))
+PY = "/verif/.venv/bin/python"
 # development aid for evaluating seeded changes without touching /repo: VF_REPO=<worktree> makes that checkout shadow
 # /repo on sys.path, VF_TAG=<tag> keeps work files, replays and evidence of such a run apart from the real ones
 VF_REPO = os.environ.get("VF_REPO", "")
